@@ -36,16 +36,16 @@ type Case struct {
 
 func gridMaxH() int {
 	if debugBuild {
-		return vk.Pick(9, 11)
+		return vk.Pick(9, 12)
 	}
-	return vk.Pick(9, 12)
+	return vk.Pick(9, 13)
 }
 
 var checker = &vk.Checker[Case]{
 	ID: "C03",
 	Rule: "level masks of height 0..30 by class (full, leaf-only, one level missing, root+leaves, random, sparse, dense) x nodes (length 0..h with 0,1,h-1,h boosted; prefixes all-0, all-1, alternating, single-1, random), " +
 		"path words encoded by the oracle (never by NewPath); PathToIndexLoose on every node, PathToIndex on stored levels, first/last stored node, pre-order successor (+1), and order of a second node; " +
-		"both in the release build and with -tags debug (contracts live; any panic is a failure). Grid: every mask of height <= 9 (thorough <= 12, debug <= 11) x every node against a literal recursive pre-order walk (bijection). " +
+		"both in the release build and with -tags debug (contracts live; any panic is a failure). Grid: every mask of height <= 9 (thorough <= 13, debug <= 12) x every node against a literal recursive pre-order walk (bijection). " +
 		"Non-trivial: path length >= 1 and (general mask of height >= 2, or full/leaf-only mask of height >= 7). Grid nodes are distinct by construction; rapid cases are hashed only when their height lies above the grid bound.",
 	Check:    check,
 	Classify: classify,
